@@ -32,44 +32,229 @@ def CRLFOnly : Bytes → Prop
   | [b] => b ≠ CR
   | b :: c :: r => (b = CR → c = LF) ∧ CRLFOnly (c :: r)
 
+/-! ## unfolding lemmas for `splitLF` in projection form -/
+
+theorem splitLF_nil (acc : Bytes) : splitLF acc [] = ([], acc) := by
+  simp [splitLF]
+
+theorem splitLF_cons_LF (acc bs : Bytes) :
+    splitLF acc (LF :: bs) = ((acc ++ [LF]) :: (splitLF [] bs).1, (splitLF [] bs).2) := by
+  simp [splitLF]
+
+theorem splitLF_cons_ne (acc : Bytes) (b : Byte) (bs : Bytes) (h : b ≠ LF) :
+    splitLF acc (b :: bs) = splitLF (acc ++ [b]) bs := by
+  simp [splitLF, h]
+
+/-- `splitLF_append` with projections instead of destructuring `let`s -/
+theorem splitLF_append' (acc a b : Bytes) :
+    splitLF acc (a ++ b) =
+      ((splitLF acc a).1 ++ (splitLF (splitLF acc a).2 b).1, (splitLF (splitLF acc a).2 b).2) := by
+  induction a generalizing acc with
+  | nil => simp [splitLF_nil]
+  | cons x t ih =>
+    by_cases hx : x = LF
+    · subst hx
+      rw [List.cons_append, splitLF_cons_LF, splitLF_cons_LF, ih]
+      simp
+    · rw [List.cons_append, splitLF_cons_ne _ _ _ hx, splitLF_cons_ne _ _ _ hx, ih]
+
 theorem splitLF_append (acc a b : Bytes) :
     splitLF acc (a ++ b) =
       let (ls, r) := splitLF acc a
       let (ls', r') := splitLF r b
       (ls ++ ls', r') := by
-  sorry
+  rw [splitLF_append']
+
+/-! ## CR discipline -/
+
+theorem NoBareCR_tail (x : Byte) (l : Bytes) (h : NoBareCR (x :: l)) : NoBareCR l := by
+  cases l with
+  | nil => simp [NoBareCR]
+  | cons y r => exact h.2
+
+theorem CRLFOnly_tail (x : Byte) (l : Bytes) (h : CRLFOnly (x :: l)) : CRLFOnly l := by
+  cases l with
+  | nil => simp [CRLFOnly]
+  | cons y r => exact h.2
+
+/-- a suffix of a CRLF-only stream is CRLF-only -/
+theorem CRLFOnly_suffix (a b : Bytes) (h : CRLFOnly (a ++ b)) : CRLFOnly b := by
+  induction a with
+  | nil => simpa using h
+  | cons x t ih => exact ih (CRLFOnly_tail x (t ++ b) h)
 
 /-- a contiguous piece of a CRLF-only stream has no bare CR (a CR may be its last byte) -/
 theorem noBareCR_of_prefix (a b : Bytes) (h : CRLFOnly (a ++ b)) : NoBareCR a := by
-  sorry
+  induction a with
+  | nil => simp [NoBareCR]
+  | cons x t ih =>
+    cases t with
+    | nil => simp [NoBareCR]
+    | cons y r =>
+      have h' : (x = CR → y = LF) ∧ CRLFOnly (y :: (r ++ b)) := h
+      exact ⟨h'.1, ih h'.2⟩
+
+/-! ## `splitlines` versus `splitLF` -/
 
 /-- Python's `splitlines(keepends=True)` on a chunk without bare CR: the complete LF-terminated
 lines followed by the unterminated rest (if any) -/
 theorem splitlines_eq_splitLF (acc c : Bytes) (h : NoBareCR c) :
     splitlinesAux acc c =
       (splitLF acc c).1 ++ (if (splitLF acc c).2 = [] then [] else [(splitLF acc c).2]) := by
-  sorry
+  fun_induction splitlinesAux acc c with
+  | case1 acc he => simp [splitLF_nil, List.isEmpty_iff.1 he]
+  | case2 acc he =>
+    have : acc ≠ [] := fun e => he (List.isEmpty_iff.2 e)
+    simp [splitLF_nil, this]
+  | case3 acc b _ =>
+    by_cases hb : b = LF
+    · subst hb; simp [splitLF_cons_LF, splitLF_nil]
+    · simp [splitLF_cons_ne _ _ _ hb, splitLF_nil]
+  | case4 acc b _ =>
+    by_cases hb : b = LF
+    · subst hb; simp [splitLF_cons_LF, splitLF_nil]
+    · simp [splitLF_cons_ne _ _ _ hb, splitLF_nil]
+  | case5 acc c bs ih =>
+    rw [splitLF_cons_LF, ih (NoBareCR_tail _ _ h)]
+    simp
+  | case6 acc bs hb ih =>
+    have hbs : NoBareCR bs := NoBareCR_tail _ _ (NoBareCR_tail _ _ h)
+    rw [splitLF_cons_ne _ _ _ hb, splitLF_cons_LF, ih hbs]
+    simp
+  | case7 acc c bs hc hb ih =>
+    exact absurd (h.1 rfl) hc
+  | case8 acc b c bs hb hb' ih =>
+    rw [splitLF_cons_ne _ _ _ hb, ih (NoBareCR_tail _ _ h)]
+
+/-- the first piece of a non-empty chunk simply continues the carried partial line -/
+theorem splitlinesAux_prepend (c : Bytes) (hne : c ≠ []) :
+    ∃ l0 rest, ∀ acc, splitlinesAux acc c = (acc ++ l0) :: rest := by
+  induction c with
+  | nil => exact absurd rfl hne
+  | cons b t ih =>
+    cases t with
+    | nil => exact ⟨[b], [], fun acc => by simp [splitlinesAux]⟩
+    | cons c bs =>
+      by_cases hb : b = LF
+      · exact ⟨[b], splitlinesAux [] (c :: bs), fun acc => by simp [splitlinesAux, hb]⟩
+      · by_cases hb' : b = CR
+        · by_cases hc : c = LF
+          · exact ⟨[b, c], splitlinesAux [] bs, fun acc => by
+              subst hb' hc; simp [splitlinesAux, CR, LF]⟩
+          · exact ⟨[b], splitlinesAux [] (c :: bs), fun acc => by
+              simp [splitlinesAux, hb', hc]⟩
+        · obtain ⟨l0, rest, hall⟩ := ih (by simp)
+          exact ⟨b :: l0, rest, fun acc => by simp [splitlinesAux, hb, hb', hall]⟩
+
+/-- every complete line ends with LF -/
+theorem splitLF_lines_end (acc c : Bytes) : ∀ l ∈ (splitLF acc c).1, l.getLast? = some LF := by
+  induction c generalizing acc with
+  | nil => simp [splitLF_nil]
+  | cons b t ih =>
+    by_cases hb : b = LF
+    · subst hb
+      rw [splitLF_cons_LF]
+      intro l hl
+      rcases List.mem_cons.1 hl with rfl | hl
+      · simp
+      · exact ih [] l hl
+    · rw [splitLF_cons_ne _ _ _ hb]; exact ih _
+
+/-- after a non-empty chunk the carried rest, if any, does not end with LF -/
+theorem splitLF_rest_end (acc c : Bytes) (hne : c ≠ []) (hr : (splitLF acc c).2 ≠ []) :
+    (splitLF acc c).2.getLast? ≠ some LF := by
+  induction c generalizing acc with
+  | nil => exact absurd rfl hne
+  | cons b t ih =>
+    by_cases hb : b = LF
+    · subst hb
+      rw [splitLF_cons_LF] at hr ⊢
+      cases t with
+      | nil => simp [splitLF_nil] at hr
+      | cons c bs => exact ih [] (by simp) hr
+    · rw [splitLF_cons_ne _ _ _ hb] at hr ⊢
+      cases t with
+      | nil => simpa [splitLF_nil] using hb
+      | cons c bs => exact ih _ (by simp) hr
 
 /-- one `recv()` result: the reader's step computes `splitLF` with the carried partial line -/
 theorem sockStep_eq (part c : Bytes) (hne : c ≠ []) (h : NoBareCR c) :
     sockStep part c = splitLF part c := by
-  sorry
+  obtain ⟨l0, rest, hall⟩ := splitlinesAux_prepend c hne
+  have h0 : splitlines c = l0 :: rest := by simpa [splitlines] using hall []
+  have hp := hall part
+  rw [splitlines_eq_splitLF part c h] at hp
+  have hend := splitLF_lines_end part c
+  have hrest := splitLF_rest_end part c hne
+  unfold sockStep
+  rw [h0]
+  simp only
+  rw [← hp]
+  generalize splitLF part c = p at hp hend hrest ⊢
+  obtain ⟨L, r⟩ := p
+  simp only at hp hend hrest ⊢
+  by_cases hr : r = []
+  · subst hr
+    simp only [if_true, List.append_nil] at hp ⊢
+    have hL : L ≠ [] := by rw [hp]; simp
+    have hlast : L.getLast? = some (L.getLast hL) := List.getLast?_eq_some_getLast hL
+    rw [hlast]
+    have : endsWithLF (L.getLast hL) = true := by
+      simp [endsWithLF, hend _ (List.getLast_mem hL)]
+    simp [this]
+  · have : endsWithLF r = false := by
+      simpa [endsWithLF] using hrest hr
+    simp [hr, this]
 
 /-- the whole reader, for any carried partial line -/
 theorem sockRead_eq (part : Bytes) (chunks : List Bytes) (hne : ∀ c ∈ chunks, c ≠ [])
     (hcr : ∀ c ∈ chunks, NoBareCR c) :
     sockRead part chunks = (splitLF part chunks.flatten).1 := by
-  sorry
+  induction chunks generalizing part with
+  | nil => simp [sockRead, splitLF_nil]
+  | cons c cs ih =>
+    have hc : c ≠ [] := hne c (by simp)
+    have ih' := fun p => ih p (fun c' hc' => hne c' (by simp [hc']))
+      (fun c' hc' => hcr c' (by simp [hc']))
+    rw [List.flatten_cons, splitLF_append']
+    unfold sockRead
+    rw [sockStep_eq part c hc (hcr c (by simp))]
+    simp [hc, ih']
 
 /-- every chunk of a chunking of a CRLF-only stream has no bare CR -/
 theorem chunks_noBareCR (chunks : List Bytes) (h : CRLFOnly chunks.flatten) :
     ∀ c ∈ chunks, NoBareCR c := by
-  sorry
+  induction chunks with
+  | nil => simp
+  | cons c cs ih =>
+    rw [List.flatten_cons] at h
+    intro c' hc'
+    rcases List.mem_cons.1 hc' with rfl | hc'
+    · exact noBareCR_of_prefix _ _ h
+    · exact ih (CRLFOnly_suffix _ _ h) c' hc'
+
+/-- a terminated line in front of a stream is split off as is -/
+theorem splitLF_content (acc content rest : Bytes) (h : LF ∉ content) :
+    splitLF acc (content ++ LF :: rest) =
+      ((acc ++ content ++ [LF]) :: (splitLF [] rest).1, (splitLF [] rest).2) := by
+  induction content generalizing acc with
+  | nil => simp [splitLF_cons_LF]
+  | cons x t ih =>
+    have hx : x ≠ LF := fun e => h (by simp [e])
+    have ht : LF ∉ t := fun e => h (by simp [e])
+    rw [List.cons_append, splitLF_cons_ne _ _ _ hx, ih _ ht]
+    simp
 
 /-- the specification on a stream of terminated lines: exactly the lines -/
 theorem splitLF_lines (lines : List Bytes)
     (h : ∀ l ∈ lines, ∃ content, l = content ++ [LF] ∧ LF ∉ content) :
     splitLF [] lines.flatten = (lines, []) := by
-  sorry
+  induction lines with
+  | nil => simp [splitLF_nil]
+  | cons l ls ih =>
+    obtain ⟨content, rfl, hc⟩ := h l (by simp)
+    have ih' := ih (fun l' hl' => h l' (by simp [hl']))
+    rw [List.flatten_cons, List.append_assoc, List.singleton_append, splitLF_content _ _ _ hc, ih']
+    simp
 
 end Model
